@@ -48,6 +48,31 @@ def _overlay():
     return shims
 
 
+def _build_private(shims, workdir):
+    """Same build as vlib.build_harness("c02x", shims=...), but overlay file and binary live in the
+    run's work directory: a binary built from mutated copies of repository files must never replace
+    the shared build/harness-c02x that concurrent runs use."""
+    import time
+    repl = {}
+    for sub in ("c02x", "common"):
+        d = os.path.join(vlib.VERIF, "harness", sub)
+        for nm in sorted(os.listdir(d)):
+            if nm.endswith(".go"):
+                repl[os.path.join(vlib.REPO, "internal", "verifharness", sub, nm)] = os.path.join(d, nm)
+    for rel, src in shims.items():
+        repl[os.path.join(vlib.REPO, rel)] = src
+    ov = os.path.join(workdir, "overlay-c02x.json")
+    with open(ov, "w") as f:
+        json.dump({"Replace": repl}, f, indent=1)
+    exe = os.path.join(workdir, "harness-c02x-overlay")
+    t0 = time.time()
+    p = vlib.run(["go", "build", "-overlay", ov, "-o", exe, "./internal/verifharness/c02x"], cwd=vlib.REPO,
+                 env=vlib.go_env(), timeout=1800, check=False)
+    if p.returncode != 0:
+        raise vlib.CheckFailure("harness build with VERIF_C02_OVERLAY failed:\n" + p.stdout[-6000:])
+    return exe, round(time.time() - t0, 1)
+
+
 def _text(hexs, limit=1500):
     if hexs == "-":
         return ""
@@ -62,9 +87,12 @@ def _text(hexs, limit=1500):
 
 def run_part(ctx, quick):
     shims = _overlay()
-    harness, hsecs = vlib.build_harness("c02x", shims=shims or None)
     out = os.path.join(ctx.work, "explore")
     os.makedirs(out, exist_ok=True)
+    if shims:
+        harness, hsecs = _build_private(shims, out)
+    else:
+        harness, hsecs = vlib.build_harness("c02x")
     args = [harness, "run", "--seed", str(ctx.seed), "--tier", "quick" if quick else "thorough", "--out", out,
             "--repo", vlib.REPO, "--workers", os.environ.get("VERIF_C02_WORKERS", "8")]
     replayed = False
